@@ -140,8 +140,8 @@ pub closed spec fn rights_wf(m: Map<String, Vec<EntityRight>>) -> bool {
 /// every history list of the group is date-ordered and every right is normalised (all-rows implies own-rows)
 pub closed spec fn auth_wf(a: Authorisation) -> bool { users_wf(a.users@) && users_wf(a.user_admins@) && rights_wf(a.rights@) }
 
-proof fn lemma_users_append_wf(old_m: Map<Vec<u8>, Vec<User>>, new_m: Map<Vec<u8>, Vec<User>>, user: User)
-    requires users_wf(old_m), users_appended(old_m, new_m, user), last_date_le(user_list(old_m, user.verifying_key), user.date),
+broadcast proof fn lemma_users_append_wf(old_m: Map<Vec<u8>, Vec<User>>, new_m: Map<Vec<u8>, Vec<User>>, user: User)
+    requires users_wf(old_m), #[trigger] users_appended(old_m, new_m, user), last_date_le(user_list(old_m, user.verifying_key), user.date),
     ensures users_wf(new_m),
 {
     assert forall|k: Vec<u8>| #[trigger] new_m.contains_key(k) implies users_sorted(new_m[k]@) by {
@@ -160,8 +160,8 @@ proof fn lemma_users_append_wf(old_m: Map<Vec<u8>, Vec<User>>, new_m: Map<Vec<u8
         }
     }
 }
-proof fn lemma_rights_append_wf(old_m: Map<String, Vec<EntityRight>>, new_m: Map<String, Vec<EntityRight>>, right: EntityRight)
-    requires rights_wf(old_m), rights_appended(old_m, new_m, right), last_from_le(right_list(old_m, right.entity), right.valid_from), right_normalised(right),
+broadcast proof fn lemma_rights_append_wf(old_m: Map<String, Vec<EntityRight>>, new_m: Map<String, Vec<EntityRight>>, right: EntityRight)
+    requires rights_wf(old_m), #[trigger] rights_appended(old_m, new_m, right), last_from_le(right_list(old_m, right.entity), right.valid_from), right_normalised(right),
     ensures rights_wf(new_m),
 {
     assert forall|k: String| #[trigger] new_m.contains_key(k) implies rights_sorted(new_m[k]@) && (forall|i: int| 0 <= i < new_m[k]@.len() ==> right_normalised(#[trigger] new_m[k]@[i])) by {
@@ -222,6 +222,23 @@ pub closed spec fn auth_shape(v: serde_json::Value) -> bool {
 //@ extract src/database/room.rs :: fn load_auth_from_json
 //@ result r
 //@ attr #[verifier::loop_isolation(false)]
+//@ insert body-start
+    broadcast use {lemma_users_append_wf, lemma_rights_append_wf};   // the representation invariant follows every add_* call, whatever the code around the call looks like
+//@ insert before-stmt "authorisation.add_user("
+            let ghost auth_before = authorisation;
+//@ insert after-stmt "authorisation.add_user("
+            // [reloaded_user_entry_accepted_or_reload_refused]{C10} the reload goes on only when the mutator accepted the stored entry: a refusal (an entry older than the key's last one) is propagated, never skipped
+            assert(exists|u: User| #[trigger] users_appended(auth_before.users@, authorisation.users@, u));
+//@ insert before-stmt "authorisation.add_user_admin("
+            let ghost auth_before = authorisation;
+//@ insert after-stmt "authorisation.add_user_admin("
+            // [reloaded_user_admin_entry_accepted_or_reload_refused]{C10}
+            assert(exists|u: User| #[trigger] users_appended(auth_before.user_admins@, authorisation.user_admins@, u));
+//@ insert before-stmt "authorisation.add_right("
+            let ghost auth_before = authorisation;
+//@ insert after-stmt "authorisation.add_right("
+            // [reloaded_right_entry_accepted_or_reload_refused]{C10}
+            assert(exists|e: EntityRight| #[trigger] rights_appended(auth_before.rights@, authorisation.rights@, e));
 //@ rewrite E16 "\"authorisation\"\.to_string\(\)" => "fmt_stub()" x1
 //@ rewrite E16 "(?s)\.as_str\(\)\s*\.unwrap\(\)\s*\.to_string\(\);" => ".as_str().unwrap().to_string();" x1
 //@ loop "for user_value in user_array" #1 iter it
@@ -233,18 +250,6 @@ pub closed spec fn auth_shape(v: serde_json::Value) -> bool {
 //@ loop "for right_value in right_array" iter it
             invariant auth_wf(authorisation), authorisation.id == id,
                 all_right_shape(right_array@),
-//@ insert after-stmt "authorisation.add_user(user)"
-            proof { lemma_users_append_wf(auth_before.users@, authorisation.users@, user_copy); }
-//@ insert before-stmt "authorisation.add_user(user)"
-            let ghost auth_before = authorisation; let ghost user_copy = user;
-//@ insert after-stmt "authorisation.add_user_admin(user)"
-            proof { lemma_users_append_wf(auth_before.user_admins@, authorisation.user_admins@, user_copy); }
-//@ insert before-stmt "authorisation.add_user_admin(user)"
-            let ghost auth_before = authorisation; let ghost user_copy = user;
-//@ insert after-stmt "authorisation.add_right(right)"
-            proof { lemma_rights_append_wf(auth_before.rights@, authorisation.rights@, right_copy); }
-//@ insert before-stmt "authorisation.add_right(right)"
-            let ghost auth_before = authorisation; let ghost right_copy = right;
 //@ spec
         requires auth_shape(*value),
         ensures
@@ -354,24 +359,14 @@ pub closed spec fn room_wf(r: Room) -> bool {
 //@ result r
 //@ attr #[verifier::loop_isolation(false)]
 //@ rewrite E3 "\.\.Default::default\(\)" => "..Authorisation::default()" x1
+//@ insert body-start
+    broadcast use {lemma_users_append_wf, lemma_rights_append_wf};   // the representation invariant follows every add_* call, whatever the code around the call looks like
 //@ loop "for right_node in &self.right_nodes" iter it
             invariant auth_wf(authorisation), authorisation.id == self.node.id,
 //@ loop "for user_node in &self.user_nodes" iter it
             invariant auth_wf(authorisation), authorisation.id == self.node.id,
 //@ loop "for user in &self.user_admin_nodes" iter it
             invariant auth_wf(authorisation), authorisation.id == self.node.id,
-//@ insert before-stmt "authorisation.add_right(entity_right)"
-            let ghost auth_before = authorisation; let ghost right_copy = entity_right;
-//@ insert after-stmt "authorisation.add_right(entity_right)"
-            proof { lemma_rights_append_wf(auth_before.rights@, authorisation.rights@, right_copy); }
-//@ insert before-stmt "authorisation.add_user(user)"
-            let ghost auth_before = authorisation; let ghost user_copy = user;
-//@ insert after-stmt "authorisation.add_user(user)"
-            proof { lemma_users_append_wf(auth_before.users@, authorisation.users@, user_copy); }
-//@ insert before-stmt "authorisation.add_user_admin(user)"
-            let ghost auth_before = authorisation; let ghost user_copy = user;
-//@ insert after-stmt "authorisation.add_user_admin(user)"
-            proof { lemma_users_append_wf(auth_before.user_admins@, authorisation.user_admins@, user_copy); }
 //@ spec
         ensures
             // [imported_group_well_formed]{C10} a group imported from a peer's definition satisfies the same representation invariant as one built live or reloaded: entries are fed to the same add_* mutators in list order, their refusal is propagated
@@ -382,14 +377,12 @@ pub closed spec fn room_wf(r: Room) -> bool {
 //@ result r
 //@ attr #[verifier::loop_isolation(false)]
 //@ rewrite E3 "\.\.Default::default\(\)" => "..Room::default()" x1
+//@ insert body-start
+    broadcast use {lemma_users_append_wf, lemma_rights_append_wf};   // the representation invariant follows every add_* call, whatever the code around the call looks like
 //@ loop "for user in &self.admin_nodes" iter it
             invariant users_wf(room.admins@), room.id == self.node.id, room.authorisations@ == Map::<Uid, Authorisation>::empty(),
 //@ loop "for auth in &self.auth_nodes" iter it
             invariant room_wf(room), room.id == self.node.id,
-//@ insert before-stmt "room.add_admin_user(user)"
-            let ghost room_before = room; let ghost user_copy = user;
-//@ insert after-stmt "room.add_admin_user(user)"
-            proof { lemma_users_append_wf(room_before.admins@, room.admins@, user_copy); }
 //@ spec
         ensures
             // [imported_room_well_formed]{C10}
@@ -433,6 +426,8 @@ pub closed spec fn stored_room_id(v: serde_json::Value) -> Uid { spec_uid(v.s_ob
 //@ extract src/database/authorisation_service.rs :: impl RoomAuthorisations / fn load_json
 //@ result r
 //@ attr #[verifier::loop_isolation(false)]
+//@ insert body-start
+    broadcast use {lemma_users_append_wf, lemma_rights_append_wf};   // the representation invariant follows every add_* call, whatever the code around the call looks like
 //@ loop "for room_value in rooms" iter itr
             invariant
                 table_wf(self.rooms@),
@@ -443,10 +438,6 @@ pub closed spec fn stored_room_id(v: serde_json::Value) -> Uid { spec_uid(v.s_ob
             let ghost auths = authorisations@;
 //@ loop "for value in admin_array" iter itu
                 invariant room.id == id, room.authorisations@ == auths, users_wf(room.admins@),
-//@ insert before-stmt "room.add_admin_user(user)?;"
-                let ghost room_before = room; let ghost user_copy = user;
-//@ insert after-stmt "room.add_admin_user(user)?;"
-                proof { lemma_users_append_wf(room_before.admins@, room.admins@, user_copy); }
 //@ spec
         requires load_shape(result@), table_wf(old(self).rooms@),
         ensures
